@@ -14,40 +14,40 @@ theorem ofEntries_symm (xx yy zz xy xz yz : Rat) (i j : Fin 3) :
     ofEntries xx yy zz xy xz yz i j = ofEntries xx yy zz xy xz yz j i := by
   rcases fin3_cases i with rfl | rfl | rfl <;> rcases fin3_cases j with rfl | rfl | rfl <;> rfl
 
-/-- `RᵀR = I` entry by entry -/
-structure Orth (R : M3) : Prop where
-  h00 : R 0 0 * R 0 0 + R 1 0 * R 1 0 + R 2 0 * R 2 0 = 1
-  h11 : R 0 1 * R 0 1 + R 1 1 * R 1 1 + R 2 1 * R 2 1 = 1
-  h22 : R 0 2 * R 0 2 + R 1 2 * R 1 2 + R 2 2 * R 2 2 = 1
-  h01 : R 0 0 * R 0 1 + R 1 0 * R 1 1 + R 2 0 * R 2 1 = 0
-  h02 : R 0 0 * R 0 2 + R 1 0 * R 1 2 + R 2 0 * R 2 2 = 0
-  h12 : R 0 1 * R 0 2 + R 1 1 * R 1 2 + R 2 1 * R 2 2 = 0
-
-theorem orth_of_eq (R : M3) (h : mul3 (transpose3 R) R = id3) : Orth R := by
-  have e : ∀ i j, sum3 (fun k => R k i * R k j) = id3 i j := fun i j => congrFun (congrFun h i) j
-  have e00 := e 0 0; have e11 := e 1 1; have e22 := e 2 2
-  have e01 := e 0 1; have e02 := e 0 2; have e12 := e 1 2
-  simp only [sum3, id3] at e00 e11 e22 e01 e02 e12
-  exact ⟨by simpa using e00, by simpa using e11, by simpa using e22,
-         by simpa using e01, by simpa using e02, by simpa using e12⟩
-
-/-! polynomial identities behind the invariants -/
+/-! polynomial identities behind the invariants: each invariant of `R Kᵀ Rᵀ` equals the same
+    invariant of `Kᵀ (RᵀR)` (no hypothesis on `R`) -/
 
 theorem rotate1_entry (R K : M3) (j i : Fin 3) :
     rotate1 R K j i = mul3 (mul3 R (transpose3 K)) (transpose3 R) j i := by
   simp only [rotate1, tdotOuter, tdotInner, mul3, transpose3, sum3]
   ring
 
-theorem det_rotate1_poly (R K : M3) : detM (rotate1 R K) = detM R * detM R * detM K := by
-  simp only [detM, rotate1, tdotOuter, tdotInner, sum3]
+theorem trace_rotate1_gram (R K : M3) :
+    trace3 (rotate1 R K) = trace3 (mul3 (transpose3 K) (mul3 (transpose3 R) R)) := by
+  simp only [trace3, rotate1, tdotOuter, tdotInner, mul3, transpose3, sum3]
   ring
 
-theorem det_gram_poly (R : M3) : detM (mul3 (transpose3 R) R) = detM R * detM R := by
-  simp only [detM, mul3, transpose3, sum3]
+theorem inv2_rotate1_gram (R K : M3) :
+    inv2 (rotate1 R K) = inv2 (mul3 (transpose3 K) (mul3 (transpose3 R) R)) := by
+  simp only [inv2, rotate1, tdotOuter, tdotInner, mul3, transpose3, sum3]
   ring
 
-theorem detM_id3 : detM id3 = 1 := by
-  simp [detM, id3]
+theorem det_rotate1_gram (R K : M3) :
+    detM (rotate1 R K) = detM (mul3 (transpose3 K) (mul3 (transpose3 R) R)) := by
+  simp only [detM, rotate1, tdotOuter, tdotInner, mul3, transpose3, sum3]
+  ring
+
+theorem mul3_id3 (A : M3) : mul3 A id3 = A := by
+  funext i j
+  rcases fin3_cases j with rfl | rfl | rfl <;> simp [mul3, sum3, id3]
+
+theorem trace3_transpose3 (K : M3) : trace3 (transpose3 K) = trace3 K := rfl
+
+theorem inv2_transpose3 (K : M3) : inv2 (transpose3 K) = inv2 K := by
+  simp only [inv2, transpose3]; ring
+
+theorem detM_transpose3 (K : M3) : detM (transpose3 K) = detM K := by
+  simp only [detM, transpose3]; ring
 
 /-! bridge to Mathlib matrices (`M3` is definitionally `Matrix (Fin 3) (Fin 3) ℚ`) -/
 
@@ -70,8 +70,146 @@ theorem toMatrix_rotate1 (R K : M3) :
   ext j i
   exact rotate1_entry R K j i
 
-/-! lists -/
+/-! ### `select` (fancy indexing) -/
 
-theorem select_spec {α : Type} (l : List α) (cells r : List Nat → Prop) : True := trivial
+theorem select_spec {α : Type} (l : List α) : ∀ (cells : List Nat) (r : List α), select l cells = some r →
+    r.length = cells.length ∧ ∀ k, k < cells.length → cells.getD k 0 < l.length ∧ r[k]? = l[cells.getD k 0]? := by
+  intro cells
+  induction cells with
+  | nil =>
+    intro r h
+    simp only [select, Option.some.injEq] at h
+    subst h
+    exact ⟨rfl, fun k hk => absurd hk (Nat.not_lt_zero k)⟩
+  | cons c cs ih =>
+    intro r h
+    simp only [select] at h
+    cases hv : l[c]? with
+    | none => simp [hv] at h
+    | some v =>
+      cases hr : select l cs with
+      | none => simp [hv, hr] at h
+      | some r' =>
+        simp only [hv, hr, Option.some.injEq] at h
+        subst h
+        obtain ⟨hl, hk⟩ := ih r' hr
+        refine ⟨by simp [hl], fun k hk' => ?_⟩
+        cases k with
+        | zero =>
+          have hc : c < l.length := by
+            rcases Nat.lt_or_ge c l.length with h' | h'
+            · exact h'
+            · rw [List.getElem?_eq_none h'] at hv; cases hv
+          simp only [List.getD_cons_zero, List.getElem?_cons_zero]
+          exact ⟨hc, hv.symm⟩
+        | succ k =>
+          simp only [List.getD_cons_succ, List.getElem?_cons_succ]
+          exact hk k (by simpa using hk')
+
+theorem select_none_of_out_of_range {α : Type} (l : List α) : ∀ (cells : List Nat) (c : Nat),
+    c ∈ cells → l.length ≤ c → select l cells = none := by
+  intro cells
+  induction cells with
+  | nil => intro c h; cases h
+  | cons d cs ih =>
+    intro c hc hle
+    rcases List.mem_cons.mp hc with rfl | h
+    · simp [select, List.getElem?_eq_none hle]
+    · simp only [select, ih c h hle]
+      cases l[d]? <;> rfl
+
+theorem select_some_of_in_range {α : Type} (l : List α) : ∀ (cells : List Nat),
+    (∀ c ∈ cells, c < l.length) → ∃ r, select l cells = some r := by
+  intro cells
+  induction cells with
+  | nil => intro _; exact ⟨[], rfl⟩
+  | cons d cs ih =>
+    intro h
+    obtain ⟨r, hr⟩ := ih (fun c hc => h c (List.mem_cons_of_mem _ hc))
+    have hd := h d List.mem_cons_self
+    exact ⟨l[d] :: r, by simp [select, hr, List.getElem?_eq_getElem hd]⟩
+
+/-! ### the second-order constructor -/
+
+/-- the list the constructor builds from resolved (defaulted, broadcast) per-cell functions -/
+def build (n : Nat) (kxx kyy kzz kxy kxz kyz : Nat → Rat) : List M3 :=
+  (List.range n).map (fun c => ofEntries (kxx c) (kyy c) (kzz c) (kxy c) (kxz c) (kyz c))
+
+theorem mkSOT_ok_of (a : Args) (kyy kzz kxy kxz kyz : Nat → Rat)
+    (h1 : bcast a.kxx.length (a.kyy.getD a.kxx) = some kyy)
+    (h2 : bcast a.kxx.length (a.kxy.getD (a.kxx.map (fun v => 0 * v))) = some kxy)
+    (h3 : bcast a.kxx.length (a.kzz.getD a.kxx) = some kzz)
+    (h4 : bcast a.kxx.length (a.kxz.getD (a.kxx.map (fun v => 0 * v))) = some kxz)
+    (h5 : bcast a.kxx.length (a.kyz.getD (a.kxx.map (fun v => 0 * v))) = some kyz)
+    (hx : ∀ v ∈ a.kxx, ¬ v < 0)
+    (hy : ∀ c, c < a.kxx.length → ¬ minor2 (a.kxx.getD c 0) (kyy c) (kxy c) < 0)
+    (hz : ∀ c, c < a.kxx.length → ¬ det3 (a.kxx.getD c 0) (kyy c) (kzz c) (kxy c) (kxz c) (kyz c) < 0) :
+    mkSOT a = .ok (build a.kxx.length (fun c => a.kxx.getD c 0) kyy kzz kxy kxz kyz) := by
+  have ex : a.kxx.any (fun v => decide (v < 0)) = false := by
+    rw [List.any_eq_false]; intro v hv; simpa using hx v hv
+  have ey : (List.range a.kxx.length).any
+      (fun c => decide (minor2 (a.kxx.getD c 0) (kyy c) (kxy c) < 0)) = false := by
+    rw [List.any_eq_false]; intro c hc; simpa using hy c (List.mem_range.mp hc)
+  have ez : (List.range a.kxx.length).any
+      (fun c => decide (det3 (a.kxx.getD c 0) (kyy c) (kzz c) (kxy c) (kxz c) (kyz c) < 0)) = false := by
+    rw [List.any_eq_false]; intro c hc; simpa using hz c (List.mem_range.mp hc)
+  unfold mkSOT
+  simp only [ex, h1, h2, ey, h3, h4, h5, ez, build]
+  rfl
+
+theorem mkSOT_ok_inv (a : Args) (t : List M3) (h : mkSOT a = .ok t) :
+    ∃ kyy kzz kxy kxz kyz : Nat → Rat,
+      bcast a.kxx.length (a.kyy.getD a.kxx) = some kyy ∧
+      bcast a.kxx.length (a.kxy.getD (a.kxx.map (fun v => 0 * v))) = some kxy ∧
+      bcast a.kxx.length (a.kzz.getD a.kxx) = some kzz ∧
+      bcast a.kxx.length (a.kxz.getD (a.kxx.map (fun v => 0 * v))) = some kxz ∧
+      bcast a.kxx.length (a.kyz.getD (a.kxx.map (fun v => 0 * v))) = some kyz ∧
+      (∀ v ∈ a.kxx, ¬ v < 0) ∧
+      (∀ c, c < a.kxx.length → ¬ minor2 (a.kxx.getD c 0) (kyy c) (kxy c) < 0) ∧
+      (∀ c, c < a.kxx.length → ¬ det3 (a.kxx.getD c 0) (kyy c) (kzz c) (kxy c) (kxz c) (kyz c) < 0) ∧
+      t = build a.kxx.length (fun c => a.kxx.getD c 0) kyy kzz kxy kxz kyz := by
+  unfold mkSOT at h
+  simp only at h
+  split at h
+  · cases h
+  · rename_i hx
+    split at h
+    · rename_i kyy kxy h1 h2
+      split at h
+      · cases h
+      · rename_i hy
+        split at h
+        · rename_i kzz kxz kyz h3 h4 h5
+          split at h
+          · cases h
+          · rename_i hz
+            simp only [Except.ok.injEq] at h
+            refine ⟨kyy, kzz, kxy, kxz, kyz, h1, h2, h3, h4, h5, ?_, ?_, ?_, h.symm⟩
+            · intro v hv hlt
+              exact hx (List.any_eq_true.mpr ⟨v, hv, decide_eq_true hlt⟩)
+            · intro c hc hlt
+              exact hy (List.any_eq_true.mpr ⟨c, List.mem_range.mpr hc, decide_eq_true hlt⟩)
+            · intro c hc hlt
+              exact hz (List.any_eq_true.mpr ⟨c, List.mem_range.mpr hc, decide_eq_true hlt⟩)
+        · cases h
+    · cases h
+
+theorem build_length (n : Nat) (kxx kyy kzz kxy kxz kyz : Nat → Rat) :
+    (build n kxx kyy kzz kxy kxz kyz).length = n := by simp [build]
+
+theorem mem_build (n : Nat) (kxx kyy kzz kxy kxz kyz : Nat → Rat) (K : M3)
+    (h : K ∈ build n kxx kyy kzz kxy kxz kyz) :
+    ∃ c, c < n ∧ K = ofEntries (kxx c) (kyy c) (kzz c) (kxy c) (kxz c) (kyz c) := by
+  simp only [build, List.mem_map, List.mem_range] at h
+  obtain ⟨c, hc, rfl⟩ := h
+  exact ⟨c, hc, rfl⟩
+
+theorem bcast_full (n : Nat) (l : List Rat) (h : l.length = n) : bcast n l = some (fun c => l.getD c 0) := by
+  simp [bcast, h]
+
+theorem getD_map_build (n : Nat) (kxx kyy kzz kxy kxz kyz : Nat → Rat) (g : M3 → Rat) (c : Nat) (hc : c < n) :
+    ((build n kxx kyy kzz kxy kxz kyz).map g).getD c 0
+      = g (ofEntries (kxx c) (kyy c) (kzz c) (kxy c) (kxz c) (kyz c)) := by
+  simp [build, List.getD_eq_getElem?_getD, hc]
 
 end PorepyVerif.C40
